@@ -541,6 +541,9 @@ func runC20Conc(ops []string) CaseResult {
 	}
 	if c20RaceEnabled {
 		res.Tags = append(res.Tags, "race-detector-on")
+	} else {
+		// without the race detector the "DATA RACE" oracle can never fire: a lost `"race": true` must not pass silently
+		res.Fails = append(res.Fails, "harness: suite c20conc must be built with -race (suite config \"race\": true)")
 	}
 	return res
 }
